@@ -22,6 +22,10 @@ func normalize(obj any) (any, error) {
 	case json.Number:
 		return normalizeNumber(obj2)
 
+	case int64:
+		// TOML integers: the same type as JSON and YAML integers
+		return int(obj2), nil
+
 	default:
 		return obj2, nil
 	}
